@@ -892,3 +892,105 @@ Proof.
   split; [vm_compute; reflexivity|]. split; [vm_compute; reflexivity|].
   split; [vm_compute; reflexivity|]. vm_compute. intuition discriminate.
 Qed.
+
+(* ---- set_smallest does not raise unless the ceiling is below one grid point ---- *)
+
+Lemma eqbA_true (x m : Q) : eqbA QA x m = true -> x == m.
+Proof.
+  unfold eqbA. cbn [ltb QA]. intros H. apply andb_true_iff in H as [H1 H2].
+  apply negb_true_iff in H1, H2. apply Qltb_ge in H1, H2. lra.
+Qed.
+
+Lemma eqbA_false (x m : Q) : eqbA QA x m = false -> ~ x == m.
+Proof.
+  unfold eqbA. cbn [ltb QA]. intros H E. apply andb_false_iff in H as [H|H];
+  apply negb_false_iff, Qltb_lt in H; lra.
+Qed.
+
+Lemma pmax_spec (a b : Q) : a <= pmax QA a b /\ b <= pmax QA a b /\ (pmax QA a b = a \/ pmax QA a b = b).
+Proof. unfold pmax. cbn [ltb QA]. destruct (Qltb a b) eqn:E; [apply Qltb_lt in E | apply Qltb_ge in E]; repeat split; try lra; auto. Qed.
+
+Lemma rep_ge1 n k : rep n k -> 1 <= toA QA n.
+Proof.
+  intros [H Hk]. rewrite H. change 1 with (inject_Z 1). rewrite <- Zle_Qle. lia.
+Qed.
+
+Lemma rep_le1 n k : rep n k -> toA QA n <= 1 -> k = 0%Z.
+Proof.
+  intros [H Hk] L. rewrite H in L. change 1 with (inject_Z 1) in L. rewrite <- Zle_Qle in L. lia.
+Qed.
+
+Lemma rep0_one n : rep n 0 -> toA QA n == 1.
+Proof. intros [H _]. rewrite H. reflexivity. Qed.
+
+Lemma mem_mb_prod (a b c : pynum (A:=Q)) :
+  mem_mb QA (a, b, c) == 200 * toA QA a * toA QA b * toA QA c / 1024 / 1024.
+Proof. unfold mem_mb. cbn [add sub mul div ofZ QA]. rewrite !Qred_correct. reflexivity. Qed.
+
+Definition mem_floor : Q := 200 / 1024 / 1024.
+
+Lemma shrink_ok (a b c : pynum (A:=Q)) (ka kb kc : Z) :
+  rep a ka -> rep b kb -> rep c kc ->
+  mem_floor < mem_mb QA (a, b, c) ->
+  exists n', shrink QA (a, b, c) = Ok n'.
+Proof.
+  intros Ra Rb Rc Hm.
+  assert (Hall : ~ (ka = 0 /\ kb = 0 /\ kc = 0)%Z).
+  { intros (-> & -> & ->). rewrite mem_mb_prod in Hm.
+    rewrite (rep0_one _ Ra), (rep0_one _ Rb), (rep0_one _ Rc) in Hm. unfold mem_floor in Hm. qconst. lra. }
+  pose proof (rep_ge1 _ _ Ra) as Ga. pose proof (rep_ge1 _ _ Rb) as Gb. pose proof (rep_ge1 _ _ Rc) as Gc.
+  unfold shrink.
+  set (m := pmax QA (pmax QA (toA QA a) (toA QA b)) (toA QA c)).
+  destruct (pmax_spec (toA QA a) (toA QA b)) as (M1 & M2 & M3).
+  destruct (pmax_spec (pmax QA (toA QA a) (toA QA b)) (toA QA c)) as (M4 & M5 & M6).
+  fold m in M4, M5, M6.
+  destruct (eqbA QA (toA QA a) m) eqn:Ea.
+  - apply eqbA_true in Ea. destruct Ra as [Ha Pa].
+    destruct (rep_reduce _ _ Ha Pa) as [[-> K] | [-> _]]; [|eexists; reflexivity].
+    exfalso. apply Hall. subst ka.
+    assert (toA QA a == 1) by (rewrite Ha; reflexivity).
+    split; [reflexivity|]. split; [apply (rep_le1 _ _ Rb) | apply (rep_le1 _ _ Rc)]; lra.
+  - apply eqbA_false in Ea. destruct (eqbA QA (toA QA b) m) eqn:Eb.
+    + apply eqbA_true in Eb. destruct Rb as [Hb Pb].
+      destruct (rep_reduce _ _ Hb Pb) as [[-> K] | [-> _]]; [|eexists; reflexivity].
+      exfalso. apply Hall. subst kb.
+      assert (toA QA b == 1) by (rewrite Hb; reflexivity).
+      split; [apply (rep_le1 _ _ Ra); lra|]. split; [reflexivity | apply (rep_le1 _ _ Rc); lra].
+    + apply eqbA_false in Eb.
+      assert (Ec : toA QA c == m).
+      { destruct M6 as [E|E]; [|rewrite E; reflexivity].
+        exfalso. destruct M3 as [E3|E3]; rewrite E3 in E; [apply Ea | apply Eb]; rewrite E; reflexivity. }
+      destruct Rc as [Hc Pc].
+      destruct (rep_reduce _ _ Hc Pc) as [[-> K] | [-> _]]; [|eexists; reflexivity].
+      exfalso. apply Hall. subst kc.
+      assert (toA QA c == 1) by (rewrite Hc; reflexivity).
+      split; [apply (rep_le1 _ _ Ra); lra|]. split; [apply (rep_le1 _ _ Rb); lra | reflexivity].
+Qed.
+
+Lemma smallest_ok (fuel : nat) (ceil : Q) (a b c : pynum (A:=Q)) (ka kb kc : Z) :
+  rep a ka -> rep b kb -> rep c kc ->
+  (Z.to_nat (ka + kb + kc) < fuel)%nat -> mem_floor < ceil ->
+  exists n', smallest QA fuel ceil (a, b, c) = Ok n'.
+Proof.
+  revert a b c ka kb kc; induction fuel as [|f IH]; intros a b c ka kb kc Ra Rb Rc Hf Hc; [lia|].
+  cbn [smallest]. destruct (ltb Q QA (mem_mb QA (a, b, c)) ceil) eqn:Em; [eexists; reflexivity|].
+  cbn [ltb QA] in Em. apply Qltb_ge in Em.
+  destruct (shrink_ok a b c ka kb kc Ra Rb Rc ltac:(lra)) as [[[a' b'] c'] Es].
+  pose proof (shrink_spec a b c ka kb kc Ra Rb Rc) as Hs. rewrite Es in Hs. rewrite Es. cbn [bind].
+  destruct Hs as (ka' & kb' & kc' & Ra' & Rb' & Rc' & La & Lb & Lc & Hsum).
+  apply (IH a' b' c' ka' kb' kc' Ra' Rb' Rc'); [|exact Hc].
+  destruct Ra as [_ ?], Rb as [_ ?], Rc as [_ ?], Ra' as [_ ?], Rb' as [_ ?], Rc' as [_ ?]. lia.
+Qed.
+
+(* with a ceiling above the size of a 1x1x1 grid, set_smallest never raises *)
+Theorem smallest_succeeds (p : params (A:=Q)) (mn mx : vec3 Q) :
+  200 / 1024 / 1024 < p_gmemceil p ->
+  let ng := ngrid_of QA p mn mx in
+  exists ns, smallest QA (smallest_fuel ng) (p_gmemceil p) (map3 PInt ng) = Ok ns.
+Proof.
+  intros Hc. cbv zeta. pose proof (ngrid_of_ok QA p mn mx) as Hok.
+  destruct (ngrid_of QA p mn mx) as [[a b] c].
+  pose proof (Hok AX) as Ha. pose proof (Hok AY) as Hb. pose proof (Hok AZ) as Hcc. cbn [ax] in Ha, Hb, Hcc.
+  cbn [map3 smallest_fuel].
+  apply (smallest_ok _ _ _ _ _ _ _ _ (grid_ok_rep _ Ha) (grid_ok_rep _ Hb) (grid_ok_rep _ Hcc)); [lia | exact Hc].
+Qed.
